@@ -202,33 +202,31 @@ func rulePairSeq(p *Prog, r *Report) {
 	// the collection loop skips the attribute and sequence keys; it may also skip the text key, provided the text is written separately
 	base := "(KEY == load(mxj.attrK)),(KEY == load(mxj.seqK))"
 	withText := "(KEY == load(mxj.attrK)),(KEY == load(mxj.seqK)),(KEY == load(mxj.textK))"
-	found, text := false, false
-	for _, s := range skipSets {
-		j := strings.Join(s, ",")
-		if j == base {
-			found = true
+	// sinks fed from val[textK]: the simple-element branch, and (if present) the mixed-content branch
+	nText := 0
+	eachInstr(enc, func(b *ssa.BasicBlock, in ssa.Instruction) {
+		ci, ok := in.(ssa.CallInstruction)
+		if !ok || !isCallTo(ci.Common(), "(*strings.Builder).WriteString", "(*bytes.Buffer).WriteString") {
+			return
 		}
-		if j == withText {
-			found, text = true, true
+		if exemptKeyGuard(cze, in.Block()) {
+			return // comment / directive text
 		}
-	}
-	if text {
-		// sinks fed from val[textK]: the simple-element branch and the mixed-content branch
-		nText := 0
-		eachInstr(enc, func(b *ssa.BasicBlock, in ssa.Instruction) {
-			ci, ok := in.(ssa.CallInstruction)
-			if !ok || !isCallTo(ci.Common(), "(*strings.Builder).WriteString", "(*bytes.Buffer).WriteString") {
+		for v := range backwardSlice(enc, ci.Common().Args[1]) {
+			if strings.HasSuffix(cze.of(v), ",load(mxj.textK))") && strings.HasPrefix(cze.of(v), "lookup(") {
+				nText++
 				return
 			}
-			for v := range backwardSlice(enc, ci.Common().Args[1]) {
-				if strings.HasSuffix(cze.of(v), ",load(mxj.textK))") && strings.HasPrefix(cze.of(v), "lookup(") {
-					nText++
-					return
-				}
-			}
-		})
-		if nText < 2 {
-			found = false
+		}
+	})
+	want := base
+	if nText >= 2 {
+		want = withText // the text is written on its own: it must not be collected as a child as well
+	}
+	found := false
+	for _, s := range skipSets {
+		if strings.Join(s, ",") == want {
+			found = true
 		}
 	}
 	if found {
@@ -647,4 +645,21 @@ func outermostRangeOverParam(blk *ssa.BasicBlock, prm ssa.Value) *ssa.BasicBlock
 		}
 	})
 	return found
+}
+
+// exemptKeyGuard: the block is dominated by key == commentK / directiveK / procinstK.
+func exemptKeyGuard(cz *canonizer, blk *ssa.BasicBlock) bool {
+	for _, g := range dominatingGuards(blk) {
+		ng := normGuard(g)
+		bo, ok := ng.Cond.(*ssa.BinOp)
+		if !ok || (bo.Op != token.EQL && bo.Op != token.NEQ) || (bo.Op == token.EQL) != ng.Pol {
+			continue
+		}
+		for _, side := range []ssa.Value{bo.X, bo.Y} {
+			if g := globalOf(side); g != nil && (g.Name() == "commentK" || g.Name() == "directiveK" || g.Name() == "procinstK") {
+				return true
+			}
+		}
+	}
+	return false
 }
